@@ -28,24 +28,28 @@ import (
 // barrier entry through the dead-letter hand-off queue, or return of Close/Stop).
 
 type c27Ledger struct {
+	tag                         string
 	callers, targets, perCaller int
 	delivered                   []atomic.Int32 // idx = caller*perCaller+seq
 	total                       atomic.Int64
-	orderBad, misrouted, dups   atomic.Int64
+	misrouted, dups             atomic.Int64
 	wit                         atomic.Value // string
 	fence                       []atomic.Int64 // per target: highest fence number processed
 	garbage                     atomic.Int64
+	histMu                      sync.Mutex
+	hist                        [][]int32 // per target: snapshot of the handling order taken at the last fence
 }
 
-func c27NewLedger(callers, targets, perCaller int) *c27Ledger {
-	return &c27Ledger{callers: callers, targets: targets, perCaller: perCaller,
-		delivered: make([]atomic.Int32, callers*perCaller), fence: make([]atomic.Int64, targets)}
+func c27NewLedger(tag string, callers, targets, perCaller int) *c27Ledger {
+	return &c27Ledger{tag: tag, callers: callers, targets: targets, perCaller: perCaller,
+		delivered: make([]atomic.Int32, callers*perCaller), fence: make([]atomic.Int64, targets), hist: make([][]int32, targets)}
 }
 
 type c27Sink struct {
 	led    *c27Ledger
 	target int
-	last   map[int]int // plain: only touched in Receive
+	// plain: only touched in Receive; handed to the ledger when a fence is processed
+	hist []int32 // handled message indexes (caller*perCaller+seq) in handling order
 }
 
 func (s *c27Sink) PreStart(*Context) error { return nil }
@@ -58,6 +62,11 @@ func (s *c27Sink) Receive(ctx *ReceiveContext) {
 	}
 	led := s.led
 	parts := strings.Split(m.GetText(), "|")
+	if len(parts) < 2 || parts[0] != led.tag {
+		led.garbage.Add(1)
+		return
+	}
+	parts = parts[1:]
 	switch parts[0] {
 	case "f": // f|n|target
 		if len(parts) != 3 {
@@ -66,6 +75,9 @@ func (s *c27Sink) Receive(ctx *ReceiveContext) {
 		}
 		n, _ := strconv.ParseInt(parts[1], 10, 64)
 		if tgt, _ := strconv.Atoi(parts[2]); tgt == s.target {
+			led.histMu.Lock()
+			led.hist[s.target] = append([]int32(nil), s.hist...)
+			led.histMu.Unlock()
 			for {
 				cur := led.fence[s.target].Load()
 				if n <= cur || led.fence[s.target].CompareAndSwap(cur, n) {
@@ -94,15 +106,7 @@ func (s *c27Sink) Receive(ctx *ReceiveContext) {
 			led.dups.Add(1)
 			led.wit.Store(fmt.Sprintf("message %q handled %d times", m.GetText(), n))
 		}
-		if s.last == nil {
-			s.last = map[int]int{}
-		}
-		if last, seen := s.last[caller]; seen && seq <= last {
-			led.orderBad.Add(1)
-			led.wit.Store(fmt.Sprintf("target %d: caller %d seq %d handled after seq %d", s.target, caller, seq, last))
-		} else {
-			s.last[caller] = seq
-		}
+		s.hist = append(s.hist, int32(caller*led.perCaller+seq))
 		led.total.Add(1)
 	}
 }
@@ -134,7 +138,7 @@ type c27Obs struct {
 	Accepted, Rejected, Delivered, DeadLettered, Ambiguous int
 	Missing                                                []string
 	MissingN                                               int
-	OrderBad, Dups, Misrouted                              int64
+	OrderBad, Dups, Misrouted, LateFailed                  int64
 	Wit                                                    string
 	Frames, Fired, Refused                                 int64
 	FiredLog                                               []string
@@ -143,6 +147,7 @@ type c27Obs struct {
 	Inconclusive                                           string
 	RejectedDelivered                                      int
 	PendingAtClose                                         int
+	PhaseMs                                                []int64 // set-up, traffic, barriers, verdict
 }
 
 type c27Idle struct{}
@@ -154,8 +159,8 @@ func (c27Idle) Receive(*ReceiveContext) {}
 func c27GenScript(rng *rand.Rand, i int) c27Script {
 	s := c27Script{Callers: 1 + rng.Intn(8), Targets: 1 + rng.Intn(3), Pace: rng.Intn(3), ActorFrom: rng.Intn(3) == 0}
 	s.PerCaller = []int{200, 400, 1000, 2500, 5000}[rng.Intn(5)]
-	if s.Callers*s.PerCaller > 16000 {
-		s.PerCaller = 16000 / s.Callers
+	if s.Callers*s.PerCaller > 8000 {
+		s.PerCaller = 8000 / s.Callers
 	}
 	kinds := []string{"clean", "kills", "kills", "kills", "refuse-window", "refuse-window", "killall", "client-close-pending", "system-stop-pending", "backpressure-cancel"}
 	s.Kind = kinds[i%len(kinds)]
@@ -186,60 +191,112 @@ func c27GenScript(rng *rand.Rand, i int) c27Script {
 		s.Pace = 0
 	case "backpressure-cancel":
 		s.Callers = 2 + rng.Intn(6)
-		s.PerCaller = 400
+		s.PerCaller = 1300/s.Callers + 20 // queue capacity 1024 + one batch in flight; ~20 blocked sends per caller
 		s.Pace = 0
 	}
 	return s
 }
 
-func c27Text(caller, target, seq int) string {
-	return "m|" + strconv.Itoa(caller) + "|" + strconv.Itoa(target) + "|" + strconv.Itoa(seq)
+func c27Text(tag string, caller, target, seq int) string {
+	return tag + "|m|" + strconv.Itoa(caller) + "|" + strconv.Itoa(target) + "|" + strconv.Itoa(seq)
 }
 
-// c27RunCase runs one script on a fresh pair of systems.
-func c27RunCase(t *testing.T, s c27Script, seed int64) (obs c27Obs) {
-	_ = seed
+// c27Env is the pair of nodes a batch reuses across its cases: node B (behind the
+// proxy) lives for the whole batch; node A is replaced after a script closed its
+// client or stopped it. (Every remoting server allocates a 20 MiB ballast, so fresh
+// systems per case would dominate the budget.)
+type c27Env struct {
+	t     *testing.T
+	a, b  *c27Node
+	cases int
+}
+
+func (e *c27Env) nodes() (*c27Node, *c27Node) {
+	if e.b == nil {
+		e.b = c27StartNode(e.t, true, nil)
+	}
+	if e.a == nil {
+		e.a = c27StartNode(e.t, false, nil)
+	}
+	return e.a, e.b
+}
+
+func (e *c27Env) dropA(stopped bool) {
+	if e.a != nil && !stopped {
+		e.a.Stop()
+	}
+	e.a = nil
+}
+
+func (e *c27Env) Close() {
+	e.dropA(false)
+	if e.b != nil {
+		e.b.Stop()
+		e.b = nil
+	}
+}
+
+// c27RunCase runs one script.
+func c27RunCase(e *c27Env, s c27Script) (obs c27Obs) {
+	t := e.t
 	ctx := context.Background()
-	b := c27StartNode(t, true, nil)
-	a := c27StartNode(t, false, nil)
+	t0 := time.Now()
+	phase := func() {
+		obs.PhaseMs = append(obs.PhaseMs, time.Since(t0).Milliseconds())
+		t0 = time.Now()
+	}
+	a, b := e.nodes()
+	e.cases++
+	tag := strconv.Itoa(e.cases)
 	aStopped := false
+	destroyA := false
 	defer func() {
-		if !aStopped {
-			a.Stop()
+		if destroyA || obs.Inconclusive != "" {
+			e.dropA(aStopped)
 		}
-		b.Stop()
 	}()
-	led := c27NewLedger(s.Callers, s.Targets, s.PerCaller)
+	led := c27NewLedger(tag, s.Callers, s.Targets, s.PerCaller)
 	sinks := make([]*PID, s.Targets)
 	remotes := make([]*PID, s.Targets)
 	for i := range sinks {
-		pid, err := b.Sys.Spawn(ctx, fmt.Sprintf("c27sink%d", i), &c27Sink{led: led, target: i})
+		pid, err := b.Sys.Spawn(ctx, fmt.Sprintf("c27sink-%s-%d", tag, i), &c27Sink{led: led, target: i})
 		if err != nil {
 			t.Fatalf("c27: spawn sink: %v", err)
 		}
 		sinks[i] = pid
 		remotes[i] = newRemotePID(pid.getAddress(), a.Sys.getRemoting())
 	}
+	defer func() {
+		for _, p := range sinks {
+			_ = p.Shutdown(ctx)
+		}
+	}()
 	dls := c27CollectDeadLetters(t, a.Sys)
 	defer dls.Close()
 	from := a.Sys.NoSender()
 	if s.ActorFrom {
-		pid, err := a.Sys.Spawn(ctx, "c27from", c27Idle{})
+		pid, err := a.Sys.Spawn(ctx, "c27from-"+tag, c27Idle{})
 		if err != nil {
 			t.Fatalf("c27: spawn sender: %v", err)
 		}
 		from = pid
 	}
+	frames0, fired0, refused0 := b.Proxy.ReqFwd.Load(), b.Proxy.Fired.Load(), b.Proxy.Refused.Load()
+	full0, fail0 := a.Log.FanoutFull.Load(), a.Log.BatchFail.Load()
 
 	accepted := make([]atomic.Bool, s.Callers*s.PerCaller)
 	rejected := make([]atomic.Bool, s.Callers*s.PerCaller)
 	var acceptedN atomic.Int64
+	textOf := func(i int) string {
+		caller, seq := i/s.PerCaller, i%s.PerCaller
+		return c27Text(tag, caller, rng0(caller, s.Targets)(seq), seq)
+	}
 
 	send := func(caller int, cctx func() (context.Context, context.CancelFunc)) {
 		tgt := rng0(caller, s.Targets)
 		for seq := 0; seq < s.PerCaller; seq++ {
 			target := tgt(seq)
-			msg := &testpb.TestLog{Text: c27Text(caller, target, seq)}
+			msg := &testpb.TestLog{Text: c27Text(tag, caller, target, seq)}
 			sctx, cancel := cctx()
 			err := from.Tell(sctx, remotes[target], msg)
 			cancel()
@@ -272,6 +329,7 @@ func c27RunCase(t *testing.T, s c27Script, seed int64) (obs c27Obs) {
 		return &wg
 	}
 
+	phase()
 	closedEarly := false // A's client closed / A stopped: no fence through A possible
 	switch s.Kind {
 	case "clean":
@@ -306,7 +364,7 @@ func c27RunCase(t *testing.T, s c27Script, seed int64) (obs c27Obs) {
 					b.Proxy.SetRefuse(false)
 					return
 				}
-				runtime.Gosched()
+				time.Sleep(20 * time.Microsecond)
 			}
 		}()
 		runCallers(bg).Wait()
@@ -318,11 +376,12 @@ func c27RunCase(t *testing.T, s c27Script, seed int64) (obs c27Obs) {
 		b.Proxy.Arm(nil)
 		b.Proxy.Stall()
 		wg := runCallers(func() (context.Context, context.CancelFunc) {
-			return context.WithTimeout(ctx, 20*time.Millisecond)
+			return context.WithTimeout(ctx, 10*time.Millisecond)
 		})
 		wg.Wait()
 		b.Proxy.Resume()
 	case "client-close-pending", "system-stop-pending":
+		destroyA = true
 		b.Proxy.Arm(nil)
 		b.Proxy.Stall()
 		runCallers(bg).Wait() // at most 1024+1 messages: nobody blocks
@@ -353,6 +412,7 @@ func c27RunCase(t *testing.T, s c27Script, seed int64) (obs c27Obs) {
 		aStopped = s.Kind == "system-stop-pending"
 	}
 	b.Proxy.Heal()
+	phase()
 
 	// ---- barriers -------------------------------------------------------------
 	if !closedEarly {
@@ -360,7 +420,7 @@ func c27RunCase(t *testing.T, s c27Script, seed int64) (obs c27Obs) {
 		for tgt := 0; tgt < s.Targets; tgt++ {
 			ok := false
 			for n := int64(1); n <= 200 && !ok; n++ {
-				text := "f|" + strconv.FormatInt(n, 10) + "|" + strconv.Itoa(tgt)
+				text := tag + "|f|" + strconv.FormatInt(n, 10) + "|" + strconv.Itoa(tgt)
 				if err := from.Tell(ctx, remotes[tgt], &testpb.TestLog{Text: text}); err != nil {
 					continue
 				}
@@ -382,7 +442,7 @@ func c27RunCase(t *testing.T, s c27Script, seed int64) (obs c27Obs) {
 		// Close/Stop returned: every flush RPC was answered after node B had enqueued the
 		// batch in the sinks' mailboxes; a local fence is FIFO behind them
 		for tgt := 0; tgt < s.Targets; tgt++ {
-			text := "f|1|" + strconv.Itoa(tgt)
+			text := tag + "|f|1|" + strconv.Itoa(tgt)
 			if err := b.Sys.NoSender().Tell(ctx, sinks[tgt], &testpb.TestLog{Text: text}); err != nil {
 				t.Fatalf("c27: local fence: %v", err)
 			}
@@ -397,7 +457,7 @@ func c27RunCase(t *testing.T, s c27Script, seed int64) (obs c27Obs) {
 		ser := a.Sys.getRemoting().Serializer(&testpb.TestLog{})
 		ok := false
 		for n := 1; n <= 100 && !ok; n++ {
-			text := "p|" + strconv.Itoa(n)
+			text := tag + "|p|" + strconv.Itoa(n)
 			raw, err := ser.Serialize(&testpb.TestLog{Text: text})
 			if err != nil {
 				t.Fatalf("c27: serialize barrier: %v", err)
@@ -413,11 +473,13 @@ func c27RunCase(t *testing.T, s c27Script, seed int64) (obs c27Obs) {
 		}
 	}
 
+	phase()
 	// ---- verdict --------------------------------------------------------------
+	failedAtA := func(i int) bool { return !aStopped && dls.Has(textOf(i)) }
 	missing := func() []int {
 		var out []int
 		for i := range accepted {
-			if accepted[i].Load() && led.delivered[i].Load() == 0 && !dls.Has(c27Text(i/s.PerCaller, rng0(i/s.PerCaller, s.Targets)(i%s.PerCaller), i%s.PerCaller)) {
+			if accepted[i].Load() && led.delivered[i].Load() == 0 && !failedAtA(i) {
 				out = append(out, i)
 			}
 		}
@@ -430,9 +492,8 @@ func c27RunCase(t *testing.T, s c27Script, seed int64) (obs c27Obs) {
 		miss = missing()
 	}
 	for i := range accepted {
-		text := c27Text(i/s.PerCaller, rng0(i/s.PerCaller, s.Targets)(i%s.PerCaller), i%s.PerCaller)
 		del := led.delivered[i].Load() > 0
-		dl := !aStopped && dls.Has(text)
+		dl := failedAtA(i)
 		if accepted[i].Load() {
 			obs.Accepted++
 			if del && dl {
@@ -455,19 +516,51 @@ func c27RunCase(t *testing.T, s c27Script, seed int64) (obs c27Obs) {
 	obs.MissingN = len(miss)
 	for _, i := range miss {
 		if len(obs.Missing) < 12 {
-			obs.Missing = append(obs.Missing, c27Text(i/s.PerCaller, rng0(i/s.PerCaller, s.Targets)(i%s.PerCaller), i%s.PerCaller))
+			obs.Missing = append(obs.Missing, textOf(i))
 		}
 	}
-	obs.OrderBad, obs.Dups, obs.Misrouted = led.orderBad.Load(), led.dups.Load(), led.misrouted.Load()
+	obs.Dups, obs.Misrouted = led.dups.Load(), led.misrouted.Load()
 	if w, ok := led.wit.Load().(string); ok {
 		obs.Wit = w
 	}
-	obs.Frames = b.Proxy.ReqFwd.Load()
-	obs.Fired = b.Proxy.Fired.Load()
-	obs.Refused = b.Proxy.Refused.Load()
+	// order, judged offline over each target's handling history. A batch whose RPC failed
+	// at A (timeout, reset) is published as dead letters and may still be processed by B
+	// later than its successors; such messages were reported failed to the sender and are
+	// left out of the order verdict (counted as late_deliveries_of_failed_batches).
+	led.histMu.Lock()
+	for tgt, h := range led.hist {
+		lastAll := map[int]int{}
+		lastOK := map[int]int{}
+		for _, idx := range h {
+			caller, seq := int(idx)/s.PerCaller, int(idx)%s.PerCaller
+			failed := failedAtA(int(idx))
+			if l, seen := lastAll[caller]; seen && seq <= l && failed {
+				obs.LateFailed++
+			}
+			if l, seen := lastAll[caller]; !seen || seq > l {
+				lastAll[caller] = seq
+			}
+			if failed {
+				continue
+			}
+			if l, seen := lastOK[caller]; seen && seq <= l {
+				obs.OrderBad++
+				if !strings.HasPrefix(obs.Wit, "target") {
+					obs.Wit = fmt.Sprintf("target %d: caller %d seq %d handled after seq %d (neither was dead-lettered)", tgt, caller, seq, l)
+				}
+			} else {
+				lastOK[caller] = seq
+			}
+		}
+	}
+	led.histMu.Unlock()
+	phase()
+	obs.Frames = b.Proxy.ReqFwd.Load() - frames0
+	obs.Fired = b.Proxy.Fired.Load() - fired0
+	obs.Refused = b.Proxy.Refused.Load() - refused0
 	obs.FiredLog = b.Proxy.FiredLog()
-	obs.FanoutFull = a.Log.FanoutFull.Load()
-	obs.BatchFail = a.Log.BatchFail.Load()
+	obs.FanoutFull = a.Log.FanoutFull.Load() - full0
+	obs.BatchFail = a.Log.BatchFail.Load() - fail0
 	switch s.Kind {
 	case "clean":
 		obs.Nontrivial = s.Callers > 1 && obs.Frames >= 2
@@ -507,10 +600,22 @@ func TestVerif_C27(t *testing.T) {
 	r.Assume("a message counts as accepted when Tell to the remote PID returned nil; a batch whose RPC failed after node B processed it may be both delivered and dead-lettered (counted as ambiguous_acks)")
 	rng := r.Rand(27)
 	n := r.N(40, 1000)
+	env := &c27Env{t: t}
+	defer env.Close()
 	for i := 0; i < n; i++ {
 		s := c27GenScript(rng, i+r.Batch)
 		seed := rng.Int63()
-		obs := c27RunCase(t, s, seed)
+		var hot []string
+		if !r.Quick() {
+			hot = verifrt.StartNoise(verifrt.NoiseConfig{Seed: seed, GoschedPerMille: 20, HotSites: 2,
+				Candidates: verifrt.SitesIn("remoteclient/coalescer.go"), HotPerMille: 300,
+				MinDelay: 20 * time.Microsecond, MaxDelay: time.Millisecond, Budget: 100})
+		}
+		obs := c27RunCase(env, s)
+		if !r.Quick() {
+			verifrt.StopNoise()
+		}
+		_ = hot
 		key := s.String()
 		if obs.Inconclusive != "" {
 			r.Inconclusive("%s: %s", key, obs.Inconclusive)
@@ -528,6 +633,7 @@ func TestVerif_C27(t *testing.T) {
 		r.Count("failed_batches_logged", obs.BatchFail)
 		r.Count("handoff_drops_logged", obs.FanoutFull)
 		r.Count("rejected_but_delivered", int64(obs.RejectedDelivered))
+		r.Count("late_deliveries_of_failed_batches", obs.LateFailed)
 		r.Count("kind_"+s.Kind, 1)
 		r.Max("max_pending_at_close", int64(obs.PendingAtClose))
 		detail := map[string]any{"script": key, "seed": seed, "obs": obs}
